@@ -82,8 +82,9 @@ def run_unit(name, repo, work, tier):
     if os.path.exists(base_p):
         with open(base_p) as f:
             base = json.load(f)
-        want = set(base["obligations"])
-        have = set("%s/%s" % (o[0], o[1]) for o in obl)
+        strip = lambda s: s.split("/", 1)[0] + "/" + s.split("/", 1)[1].split(":", 1)[-1]
+        want = set(strip(x) for x in base["obligations"])
+        have = set(strip("%s/%s" % (o[0], o[1])) for o in obl)
         lost = sorted(want - have)
         if lost:
             out["undecided"].append("%s: obligations present in the committed baseline were not generated: %s" % (name, ", ".join(lost[:5])))
@@ -309,7 +310,7 @@ def _run(pid, cfg, tier, seed, repo, work, t0):
         os.makedirs(os.path.join(ROOT, "baseline"), exist_ok=True)
         for u in units:
             with open(os.path.join(ROOT, "baseline", u["name"] + ".json"), "w") as fo:
-                json.dump(dict(obligations=sorted("%s/%s" % (o[0], o[1]) for o in u["asm"].obligations())), fo, indent=1)
+                json.dump(dict(obligations=sorted("%s/%s" % (o[0], o[1].split(":", 1)[-1]) for o in u["asm"].obligations())), fo, indent=1)
     os.makedirs(os.path.join(ROOT, "evidence"), exist_ok=True)
     with open(os.path.join(ROOT, "evidence", pid + ".json"), "w") as fo:
         json.dump(ev, fo, indent=1, default=str)
